@@ -377,11 +377,16 @@ separate_digits_fractional(Arg, Sep, Num, Cs) :-
         number_chars(Num, NCs),
         phrase(("~",seq(NCs),"d"), FStr),
         phrase(format_(FStr, [Arg]), Cs0),
-        phrase(upto_what(Bs0, .), Cs0, Ds),
+        % only digits are grouped: the sign stays in front of the first group
+        (   Cs0 = [-|Cs1] -> Sign = "-"
+        ;   Cs1 = Cs0, Sign = []
+        ),
+        phrase(upto_what(Bs0, .), Cs1, Ds),
         reverse(Bs0, Bs1),
         phrase(groups_of_three(Bs1,Sep), Bs2),
         reverse(Bs2, Bs),
-        append(Bs, Ds, Cs).
+        append(Bs, Ds, Cs2),
+        append(Sign, Cs2, Cs).
 
 upto_what([], W), [W] --> [W], !.
 upto_what([C|Cs], W) --> [C], !, upto_what(Cs, W).
